@@ -334,6 +334,14 @@ func rulesC06(e *Engine, r *Report) {
 	r.Rule("R06.10", "recovery's validation pool finishes: the workers Recover starts keep receiving until the hand-over channel is closed, Recover closes it on every path after starting them and waits only after the close (a worker leaving early strands the plain send and the receiver stays `unavailable` for ever)")
 	e.checkWorkerPools(r, "R06.10", 1, "stage")
 
+	// ---------------------------------------------------------------- R06.11
+	r.Rule("R06.11", "recovery relearns what was delivered: Recover refills the cache from the receive log (buildCache) before it decides what to do with the files it finds, and the day-file iterator behind that refill visits every day of the range including the closing one (today), whatever the times of day of its ends - else a file delivered just before the crash is unknown after the restart and is accepted, logged and delivered a second time - shared with R18.5/R05.10")
+	e.checkDayLoop(r, "R06.11")
+	if fn := needFn(e, r, "R06.11", "stage.(*Stage).Recover"); fn != nil {
+		bc := e.findInstrs(fn, "call(stage.(*Stage).buildCache)(p0, §)", false)
+		r.Check(len(bc) >= 1, "R06.11", "stage.(*Stage).Recover: the cache is refilled from the log", e.Pos(fn.Pos()), "recovery no longer reads the receive log", 1)
+	}
+
 	// ---------------------------------------------------------------- R06.7
 	r.Rule("R06.7", "the validator's transitions are ordered: state `validated` is set only after the Full→Wait rename succeeded, and the hand-over to finalize only after the state was set; recovery marks a file `received` before it validates it")
 	if fn := needFn(e, r, "R06.7", "stage.(*Stage).process"); fn != nil {
